@@ -316,3 +316,141 @@ Example exL_result :
   d_height (n_disk (run ex_exec (ex_g 5) exL_h2)) = 164 /\
   map x_height (n_log (run ex_exec (ex_g 5) exL_h2)) = seq_from 4 160.
 Proof. vm_compute. repeat split; reflexivity. Qed.
+
+(* ======== DA ingress: a DA request that comes back with an ERROR (Model/DAIngress.v) ========================
+   types/da.go RetrieveWithHelpers, block/retriever.go fetchBlobs / processNextDAHeaderAndData / RetrieveLoop, one
+   REQUEST (fetch attempt) at a time.  Quantification: every content of the DA layer (parts of the proposer's
+   chain at any DA heights: several per height, out of block order, data below headers, empty heights), every start
+   position, and EVERY sequence of outcomes of the retriever's successive requests — an error of any class
+   (generic, context.DeadlineExceeded, coreda.ErrContextDeadline, context.Canceled, coreda.ErrContextCanceled,
+   height from the future, not found) at GetIDs or at Get, or the blobs — however the requests are grouped into
+   wake-ups and retry rounds (that schedule and the classification of blobs are C09's subject). *)
+From Verif Require Import Model.DAIngress Proofs.DAIngressProofs.
+
+(* every error class is a failure: a request that comes back with an error — of GetIDs, unless the error says
+   "not found"; of Get, whenever the height has ids — hands nothing to SyncLoop and leaves the scan position *)
+Theorem C02_da_error_classes_full : forall ct cur (e : derr),
+  (e <> ENotFound -> da_step ct cur (OIds e) = (cur, [])) /\
+  (blobs_at ct cur <> [] -> da_step ct cur (OGet e) = (cur, [])).
+Proof. exact every_error_class_fails. Qed.
+Print Assumptions C02_da_error_classes_full.
+
+(* the scan position: it never decreases, and one more request moves it — by exactly one — iff the request was
+   ANSWERED: the blobs, "not found", or a height for which no ids are listed *)
+Theorem C02_da_cursor_full : forall ct c0 outs o,
+  c0 <= da_cursor ct c0 outs /\
+  da_cursor ct c0 (outs ++ [o]) =
+    (let cur := da_cursor ct c0 outs in
+     match o with
+     | OOk => cur + 1
+     | OIds e => if is_notfound e then cur + 1 else cur
+     | OGet _ => if nonempty (blobs_at ct cur) then cur else cur + 1
+     end).
+Proof. exact cursor_law. Qed.
+Print Assumptions C02_da_cursor_full.
+
+(* no DA height is stepped over: every blob of every height the scan position has passed was handed to SyncLoop
+   (tagged with that height) — unless the DA layer itself denied the height ("not found" for a height that
+   carries blobs: da_lies) *)
+Theorem C02_da_no_skip_full : forall ct outs c0 x p,
+  c0 <= x -> x < da_cursor ct c0 outs -> In p (blobs_at ct x) ->
+  In (p, x) (da_handed ct c0 outs) \/ In x (da_lies ct c0 outs).
+Proof. exact no_skip. Qed.
+Print Assumptions C02_da_no_skip_full.
+
+(* nothing else is handed over: only blobs the DA layer holds, of heights the scan has passed, with their height *)
+Theorem C02_da_only_da_content_full : forall ct outs c0 p x,
+  In (p, x) (da_handed ct c0 outs) -> c0 <= x /\ x < da_cursor ct c0 outs /\ In p (blobs_at ct x).
+Proof. exact handed_sound. Qed.
+Print Assumptions C02_da_only_da_content_full.
+
+(* a failed request costs a request, never a height: the scan position is the start position plus the number of
+   answered requests; so when at most F requests fail and the retriever keeps asking, every height is passed *)
+Theorem C02_da_progress_full : forall ct outs c0,
+  (da_failures ct c0 outs <= length outs)%nat /\
+  da_cursor ct c0 outs = c0 + N.of_nat (length outs - da_failures ct c0 outs) /\
+  forall F n, (da_failures ct c0 outs <= F)%nat -> (F + n <= length outs)%nat -> c0 + N.of_nat n <= da_cursor ct c0 outs.
+Proof.
+  intros ct outs c0. destruct (progress_count ct outs c0) as (A & B).
+  split; [exact A|]. split; [exact B|]. intros F n. exact (reaches ct outs c0 F n).
+Qed.
+Print Assumptions C02_da_progress_full.
+
+(* COMPOSITION with the syncer's completeness (guard distinct_commitmentsb only, hence _partial), for every
+   signature payload provider: a node fed by the DA layer.  After any past h1 (events, read faults, clean restarts,
+   crashes; no height read inside trySyncNextBlock failed since the last start), the retriever of the running
+   process starts at c0 and its requests meet any outcomes; if SyncLoop consumes (h2: clean, any order, anything
+   else of the chain in between) what the retriever handed over, the node reaches every height up to which each
+   block is applied already, or was delivered some other way (P2P), or lies — header and, if not empty, data — at
+   a DA height the scan has passed without the DA layer denying it.  With C02_safety_faults_full the blocks at
+   those heights are exactly the proposer's. *)
+Theorem C02_da_complete_partial : forall exec prov g k C h1 ct c0 outs h2 m,
+  ChainValidP exec prov g k C -> distinct_commitmentsb C = true ->
+  Forall (fitem_in C) h1 -> live_after true h1 = true ->
+  Forall (item_in C) h2 -> forallb is_clean h2 = true ->
+  incl (da_events C (da_handed ct c0 outs)) h2 ->
+  (m <= length C)%nat ->
+  (forall i b, (i < m)%nat -> nth_error C i = Some b ->
+     g_initial g + N.of_nat i <= d_height (n_disk (frun exec prov g h1)) \/ header_delivered h2 b \/
+     scanned ct c0 outs (PH (N.of_nat i))) ->
+  (forall i b, (i < m)%nat -> nth_error C i = Some b -> d_txs (snd b) <> [] ->
+     g_initial g + N.of_nat i <= d_height (n_disk (frun exec prov g h1)) \/ data_delivered h2 b \/
+     scanned ct c0 outs (PD (N.of_nat i))) ->
+  g_initial g + N.of_nat m - 1 <= d_height (n_disk (frun exec prov g (h1 ++ map lift h2))).
+Proof. exact da_complete_p. Qed.
+Print Assumptions C02_da_complete_partial.
+
+(* its instance on the model of the first part (default provider, no read fault; h1 may contain crashes) *)
+Theorem C02_da_complete_default_partial : forall exec g k C h1 ct c0 outs h2 m,
+  ChainValid exec g k C -> distinct_commitmentsb C = true ->
+  Forall (item_in C) h1 -> Forall (item_in C) h2 -> forallb is_clean h2 = true ->
+  incl (da_events C (da_handed ct c0 outs)) h2 ->
+  (m <= length C)%nat ->
+  (forall i b, (i < m)%nat -> nth_error C i = Some b ->
+     g_initial g + N.of_nat i <= d_height (n_disk (run exec g h1)) \/ header_delivered h2 b \/
+     scanned ct c0 outs (PH (N.of_nat i))) ->
+  (forall i b, (i < m)%nat -> nth_error C i = Some b -> d_txs (snd b) <> [] ->
+     g_initial g + N.of_nat i <= d_height (n_disk (run exec g h1)) \/ data_delivered h2 b \/
+     scanned ct c0 outs (PD (N.of_nat i))) ->
+  g_initial g + N.of_nat m - 1 <= d_height (n_disk (run exec g (h1 ++ h2))).
+Proof. exact da_complete. Qed.
+Print Assumptions C02_da_complete_default_partial.
+
+(* ---- non-vacuity: the 6-block chain ex6 on a DA layer (heights 1..5, height 3 empty, the header of block 1 above
+   its data, block 0 by P2P only); the requests meet a deadline of the DA node, a cancelled context, a request
+   timeout, failing Gets (generic, "not found", cancelled), "from the future" twice, and twice more at the tip — 10 failed requests of 16, no
+   height lost: everything is handed over, once, in DA order, and the node reaches the proposer's height *)
+Example exDA_scan :
+  da_cursor ex_da 0 ex_outs = 6 /\ da_failures ex_da 0 ex_outs = 10%nat /\ da_lies ex_da 0 ex_outs = [] /\
+  da_asked ex_da 0 ex_outs = [0; 1; 1; 1; 1; 2; 2; 2; 3; 4; 4; 4; 4; 5; 6; 6] /\
+  da_handed ex_da 0 ex_outs =
+    [(PD 1, 1); (PH 2, 1); (PH 1, 2); (PH 3, 2); (PD 4, 4); (PH 4, 4); (PH 5, 4); (PD 5, 5)].
+Proof. vm_compute. repeat split; reflexivity. Qed.
+Definition exDA_h2 := evh ex6 0 0 :: da_events ex6 (da_handed ex_da 0 ex_outs).
+Example exDA_result :
+  length exDA_h2 = 9%nat /\ forallb is_clean exDA_h2 = true /\
+  d_height (n_disk (run ex_exec (ex_g 5) exDA_h2)) = 10 /\
+  map x_height (n_log (run ex_exec (ex_g 5) exDA_h2)) = [5; 6; 7; 8; 9; 10].
+Proof. vm_compute. repeat split; reflexivity. Qed.
+(* a DA layer that denies height 2 once: the scan goes on (the code's answer to "not found"), the denial is
+   recorded, the headers of blocks 1 and 3 are not handed over — the case the composition theorem excludes *)
+Example exDA_denied :
+  da_lies ex_da 0 [OIds ENotFound; OOk; OIds ENotFound; OIds ENotFound; OOk] = [2] /\
+  da_cursor ex_da 0 [OIds ENotFound; OOk; OIds ENotFound; OIds ENotFound; OOk] = 5 /\
+  map fst (da_handed ex_da 0 [OIds ENotFound; OOk; OIds ENotFound; OIds ENotFound; OOk]) = [PD 1; PH 2; PD 4; PH 4; PH 5].
+Proof. vm_compute. repeat split; reflexivity. Qed.
+
+(* ---- non-vacuity of the completeness theorems for LONG backlogs: 131 blocks from height 5; blocks 1..130 arrive
+   top-down (every header, every data), then the data of block 0, while the header of block 0 is missing: nothing is
+   applied; the header of block 0 arrives last and the ONE trySyncNextBlock call it triggers applies all 131 blocks (the model's
+   loop has no bound per call: fuel = cached headers + 1) *)
+Definition exB := ex_long 5 131.
+Definition exB_above := flat_map (fun i => [evd exB i 1; evh exB i 1]) (rev (seq 1 130)) ++ [evd exB 0 1].
+Example exB_valid : ChainValid ex_exec (ex_g 5) 1 exB /\ distinct_commitmentsb exB = true.
+Proof. split; [chain_valid|vm_compute; reflexivity]. Qed.
+Example exB_result :
+  length exB_above = 261%nat /\
+  d_height (n_disk (run ex_exec (ex_g 5) exB_above)) = 4 /\
+  d_height (n_disk (run ex_exec (ex_g 5) (exB_above ++ [evh exB 0 1]))) = 135 /\
+  length (n_log (run ex_exec (ex_g 5) (exB_above ++ [evh exB 0 1]))) = 131%nat.
+Proof. vm_compute. repeat split; reflexivity. Qed.
